@@ -690,3 +690,16 @@ theorem mech_return_dispatch_refines_spec_state (v : Val) (spOf : Nat → Nat) (
   Link.enterNextFinallyFrame_layout_refines_spec v spOf f C hf k vm lo [] k' hC hvm hs
 
 end GojaModel.C09
+
+namespace GojaModel.C09
+
+/-- Besides `handleThrow`, the other try-frame operations of compiled code commute with a change of caller: the `try`
+instruction, `leaveTry` / `leaveFinally`, and `restoreStacks` to lengths recorded by a generator-owned frame. -/
+theorem try_frame_instructions_site_independent (lo g : Mech.VM) (cp fp : Int) (i r : Nat) :
+    Mech.pushTryFrame (Mech.rebase lo g) cp fp = Mech.rebase lo (Mech.pushTryFrame g cp fp) ∧
+    (g.tryStack ≠ [] → Mech.popTryFrame (Mech.rebase lo g) = Mech.rebase lo (Mech.popTryFrame g)) ∧
+    Mech.restoreStacks (Mech.rebase lo g) (i + lo.iterStack.length) (r + lo.refStack.length)
+      = ((Mech.restoreStacks g i r).1, Mech.rebase lo (Mech.restoreStacks g i r).2) :=
+  ⟨Mech.pushTryFrame_rebase lo g cp fp, Mech.popTryFrame_rebase lo g, Mech.restoreStacks_rebase lo g i r⟩
+
+end GojaModel.C09
